@@ -200,7 +200,7 @@ pub fn miri_case(item: u64, rng: &mut Rng, acc: &mut Acc) {
 
 pub fn run(ctx: &Ctx) -> i32 {
     let per_item = 2000usize;
-    let n_items = ctx.n(500, 50_000);
+    let n_items = ctx.n(2500, 50_000);
     let acc = par_items(ctx, "C20", n_items, |item, rng, acc| {
         for k in 0..per_item {
             let sub = item * per_item as u64 + k as u64;
